@@ -182,7 +182,8 @@ def rule_attrs_property(ctx):
     else:
         ctx.violated('R2', fset, 'attrs setter', 'assigning a.attrs must replace the content: clear the dictionary, then update it with the new mapping')
     ev = run(ctx, fdel, mode='join')
-    if any(e.kind == 'del' and e.a == ('attr', SELF, 'attrs') and e.loops for p in ev.paths for e in p.events):
+    if any(e.kind == 'del' and e.a == ('attr', SELF, 'attrs') and e.loops for p in ev.paths for e in p.events) or \
+            any(T.call_receiver(e.a) in (('attr', SELF, 'attrs'), ('attr', SELF, '_attrs')) and not e.a[2] for p in ev.paths for e in p.calls('clear')):
         ctx.holds('R2', 'attrs deleter clears every key')
     else:
         ctx.violated('R2', fdel, 'attrs deleter', 'del a.attrs must remove every entry')
